@@ -39,6 +39,7 @@ JudgeLoc(q, o) ==
                 k == LpmLen(nets, q.c)
             IN IF k < 0 THEN (IF o.found THEN "C03:location-without-subnet" ELSE "ok")
                ELSE IF ~o.found THEN "C03:subnet-missed"
+               ELSE IF o.map # mm THEN "C03:wrong-map"
                ELSE IF o.loc \notin LpmLocs(nets, q.c) THEN "C03:not-longest-prefix"
                ELSE IF o.mask # k THEN "C03:mask"
                ELSE "ok"
